@@ -48,3 +48,22 @@ def ite(c, a, b):
 
 def bxor(a, b):
     return a ^ b
+
+
+def sub(s, a, b):
+    """raw slice: meaningful for 0 <= a <= b <= len(s) (no clamping in the SMT encoding)"""
+    return s[a:b]
+
+
+def file_content(f):
+    if hasattr(f, "getvalue"):
+        return f.getvalue()
+    p = f.tell()
+    f.seek(0)
+    data = f.read()
+    f.seek(p)
+    return data
+
+
+def file_pos(f):
+    return f.tell()
